@@ -58,6 +58,8 @@ def gen(shard, tier):
                 continue
             for tslot in [None, 'n', 'c'] + list(range(n)):
                 yield {'kind': 'mod', 't': t, 'tslot': tslot}, n + (tslot is not None), True
+                if tslot is not None:
+                    yield {'kind': 'mod', 't': t, 'tslot': tslot, 'ttag': 11}, n + 2, True
     else:
         for t in _strings(n, n):
             if not t.startswith(pre):
@@ -82,13 +84,15 @@ def render(seq, res=None, nterm=None, cterm=None):
 
 
 def model(seq, slot, tag):
+    """tag 1 / 2: one modification; tag 11: the modification 1 written twice on the same site"""
+    tags = [1, 1] if tag == 11 else [tag]
     res, nt, ct = {}, None, None
     if slot == 'n':
-        nt = [tag]
+        nt = tags
     elif slot == 'c':
-        ct = [tag]
+        ct = tags
     elif slot is not None:
-        res = {slot: [tag]}
+        res = {slot: tags}
     return seq, res, nt, ct
 
 
@@ -164,14 +168,14 @@ def check(case, ctx):
     elif kind == 'mod':
         t = case['t']
         n = len(t)
-        T = model(t, case['tslot'], 1)
+        T = model(t, case['tslot'], case.get('ttag', 1))
         ts = render(*T)
         nocc = 0
         for m in range(1, min(3, n) + 1):
             for q in _strings(m, m):
                 for qslot in [None, 'n', 'c'] + list(range(m)):
-                    for qtag in (1, 2):
-                        if qslot is None and qtag == 2:
+                    for qtag in (1, 2, 11):
+                        if qslot is None and qtag != 1:
                             continue
                         Q = model(q, qslot, qtag)
                         qs = render(*Q)
